@@ -28,7 +28,7 @@ def strategy(tier):
     from hypothesis import strategies as st
     base = geo.case_strategy(tier, kinds=("interior", "interior", "boundary", "boundary", "product",
                                           "depproduct", "bproduct"))
-    return st.one_of(base, base, base, base, base, base, base, base, base, geo.big_leaf_case())
+    return geo.weighted((9, base), (1, geo.big_leaf_case()))
 
 
 def _lib_contains(ctx, D, env, label, feature):
